@@ -186,17 +186,43 @@ fn apply(st: &mut State, conn: u64, body: &Document) -> (Document, serde_json::V
             let ups: Vec<Document> = body.get_array("updates").map(|a| a.iter().filter_map(|b| b.as_document().cloned()).collect()).unwrap_or_default();
             let (mut n, mut nmod) = (0i32, 0i32);
             let mut ids = Vec::new();
-            for u in ups {
+            let mut errs: Vec<Bson> = Vec::new();
+            let uniq_fields: Vec<String> = st.unique.iter().filter(|(c, _)| *c == coll).map(|(_, f)| f.clone()).collect();
+            for (ui, u) in ups.into_iter().enumerate() {
                 let q = u.get_document("q").cloned().unwrap_or_default();
                 let multi = u.get_bool("multi").unwrap_or(false);
                 let upd = u.get_document("u").cloned().unwrap_or_default();
                 entry["filter"] = to_json(&q);
                 entry["update_keys"] = serde_json::json!(upd.get_document("$set").map(|s| s.keys().cloned().collect::<Vec<_>>()).unwrap_or_else(|_| vec!["<replacement>".to_string()]));
                 if let Some(c) = st.colls.get_mut(&coll) {
-                    for d in c.iter_mut() {
-                        if !matches(d, &q) {
+                    for di in 0..c.len() {
+                        if !matches(&c[di], &q) {
                             continue;
                         }
+                        // a unique index holds for updates and replacements like for inserts: the write is refused (E11000)
+                        // when it would give this document a value another document already has
+                        let mut after = c[di].clone();
+                        if let Ok(set) = upd.get_document("$set") {
+                            for (k, v) in set {
+                                set_path(&mut after, k, v.clone());
+                            }
+                        } else {
+                            let mut nd = Document::new();
+                            if let Some(id) = c[di].get("_id").cloned() {
+                                nd.insert("_id", id);
+                            }
+                            nd.extend(upd.clone());
+                            after = nd;
+                        }
+                        let clash = uniq_fields.iter().any(|f| {
+                            let v = after.get(f).cloned();
+                            v.is_some() && c.iter().enumerate().any(|(j, x)| j != di && x.get(f).cloned() == v)
+                        });
+                        if clash {
+                            errs.push(Bson::Document(doc! {"index": ui as i32, "code": 11000i32, "errmsg": "E11000 duplicate key error"}));
+                            break;
+                        }
+                        let d = &mut c[di];
                         n += 1;
                         let before = d.clone();
                         if let Ok(set) = upd.get_document("$set") {
@@ -224,7 +250,11 @@ fn apply(st: &mut State, conn: u64, body: &Document) -> (Document, serde_json::V
             }
             entry["n"] = serde_json::json!(n);
             entry["ids"] = serde_json::json!(ids);
-            doc! {"n": n, "nModified": nmod, "ok": 1.0}
+            let mut r = doc! {"n": n, "nModified": nmod, "ok": 1.0};
+            if !errs.is_empty() {
+                r.insert("writeErrors", errs);
+            }
+            r
         }
         "delete" => {
             let dels: Vec<Document> = body.get_array("deletes").map(|a| a.iter().filter_map(|b| b.as_document().cloned()).collect()).unwrap_or_default();
